@@ -188,6 +188,8 @@ def _type_valued(ctx: Ctx, fn: FuncInfo, e: ast.AST, depth: int = 7) -> bool:
         return False
     if isinstance(e, ast.Call) and dotted(e.func) == "type" and len(e.args) == 1:
         return True
+    if isinstance(e, ast.IfExp):  # `type(obj) if <hashable> else type(obj).__name__`
+        return _type_valued(ctx, fn, e.body, depth - 1) or _type_valued(ctx, fn, e.orelse, depth - 1)
     if isinstance(e, ast.Name):
         defs = [s.value for s in walk_no_nested(fn.node) if isinstance(s, (ast.Assign, ast.AnnAssign)) and s.value is not None
                 and e.id in {getattr(t, "id", None) for t in (s.targets if isinstance(s, ast.Assign) else [s.target])}]
